@@ -166,9 +166,8 @@ Proof.
     destruct (search_le ltb key (map fst cs)) as [index|] eqn:Ei; [|discriminate Hs]. cbn [bind] in *.
     destruct (get_nth index (erase_cs cs)) as [[sep e]|] eqn:Eg; [|discriminate Hs]. cbn [bind] in Hs.
     destruct (get_nth_erase _ _ index cs sep e Eg) as (c & Hgc & Hec & Hnc). rewrite Hgc. cbn [bind].
-    subst e. rewrite ismallest_erase in Hs.
-    match type of Hs with bind ?X _ = _ => destruct X as [sep'|] eqn:Esep; [|discriminate Hs] end.
-    cbn [bind] in Hs.
+    subst e. cbn [bind] in Hs.
+    set (sep' := if index =? 0 then if ltb key sep then key else sep else sep) in *.
     destruct (nth_error_split _ _ Hnc) as (pre & post & -> & Hlen).
     pose proof (wfc_node _ _ _ _ _ _ _ _ _ Hw) as Hwc.
     pose proof (wfc_child_neq _ _ _ _ _ _ _ _ _ Hw) as Hneq.
@@ -209,7 +208,7 @@ Proof.
                      l' arg Hups Eil Hwl Hcl) as (out' & Ho' & Hok').
         eapply (solo_step_out K V ltb order me s1 th1 (Some (Some (nid c))) o rest out'); eauto.
         -- rewrite Hpc1. reflexivity.
-        -- blk_pc Hpc1. rewrite Hfp, Hfc, Hgc. cbn [bind]. rewrite Hkey, Esep. cbn [bind].
+        -- blk_pc Hpc1. rewrite Hfp, Hfc, Hgc. cbn [bind]. rewrite Hkey. cbn [bind]. fold sep'.
            rewrite Hfr, Hisp, Ers. cbn [bind]. rewrite Hupd. cbn [bind]. rewrite Elt.
            subst index. rewrite set_nth_app, ins_nth_app1.
            rewrite plug_mkcf, Hnl in Ho'. rewrite Ho'. reflexivity.
@@ -233,7 +232,7 @@ Proof.
                  {| otr := plug C N2; olk := (nid c, me) :: lk s1; ofresh := S fr; otm := tm s1;
                     opc := InsWantSplitRight o i (nid c) fr; oev := [] |}); eauto.
         -- rewrite Hpc1. reflexivity.
-        -- blk_pc Hpc1. rewrite Hfp, Hfc, Hgc. cbn [bind]. rewrite Hkey, Esep. cbn [bind].
+        -- blk_pc Hpc1. rewrite Hfp, Hfc, Hgc. cbn [bind]. rewrite Hkey. cbn [bind]. fold sep'.
            rewrite Hfr, Hisp, Ers. cbn [bind]. rewrite Hupd. cbn [bind]. rewrite Elt.
            subst index. rewrite set_nth_app, ins_nth_app1. reflexivity.
         -- intros s2 Hs2 Htr2 Hfr2 (th2 & Hg2 & Hpc2 & Hpr2). simpl in Htr2, Hfr2, Hpc2, Hpr2.
@@ -274,7 +273,7 @@ Proof.
                    c' arg Hups Eic Hwc' Hcapc) as (out' & Ho' & Hok').
       eapply (solo_step_out K V ltb order me s1 th1 (Some (Some (nid c))) o rest out'); eauto.
       * rewrite Hpc1. reflexivity.
-      * blk_pc Hpc1. rewrite Hfp, Hfc, Hgc. cbn [bind]. rewrite Hkey, Esep. cbn [bind].
+      * blk_pc Hpc1. rewrite Hfp, Hfc, Hgc. cbn [bind]. rewrite Hkey. cbn [bind]. fold sep'.
         rewrite Hfr, Hisp. rewrite Hupd. cbn [bind].
         subst index. rewrite set_nth_app. rewrite plug_mkcf in Ho'. rewrite Ho'. reflexivity.
       * eapply outok_weaken; [|exact Hok'].
